@@ -174,10 +174,20 @@ func (t *Typedef) resolve(d *typeDictionary) []error {
 
 // resolve resolves Type t, as well as the underlying typedef for t.  If t
 // cannot be resolved then one or more errors are returned.
-func (t *Type) resolve(d *typeDictionary) (errs []error) {
-	if t.YangType != nil {
+func (t *Type) resolve(d *typeDictionary) []error {
+	if t.YangType != nil && !t.resolveFailed {
 		return nil
 	}
+	// A type whose resolution failed is resolved again, so that the next
+	// Process reports the same problems again, or succeeds once what was
+	// missing has been loaded.
+	errs := t.resolve1(d)
+	t.resolveFailed = len(errs) != 0
+	return errs
+}
+
+// resolve1 does the work of resolve.
+func (t *Type) resolve1(d *typeDictionary) (errs []error) {
 
 	// If t.Name is a base type then td will not be nil, otherwise
 	// td will be nil and of type *Typedef.
